@@ -25,6 +25,7 @@ func main() {
 	flag.BoolVar(&keepSMT, "keep", false, "keep all .smt2 files")
 	flag.IntVar(&d.Timeout, "timeout", 10, "per-query timeout (s)")
 	flag.StringVar(&d.Evidence, "evidence", "", "evidence file to write")
+	flag.BoolVar(&d.WriteInv, "write-inventory", false, "record discharged obligations in obligations.json")
 	flag.Parse()
 	os.Exit(d.Run())
 }
